@@ -28,4 +28,19 @@ SPECS = [
          inputs=[("n", "Z"), ("max_length", "Z")], subst={"len(string)": "n", "self.max_length": "max_length"}),
     dict(name="lg_truncate_keep", qual="HumanOutputFormat._truncate", start=r"^string = ", end=None, kind="subexpr", pick=r"self\.max_length .*", ret="Z",
          inputs=[("max_length", "Z")], subst={"self.max_length": "max_length"}),
+    # ---- build round 5: HumanOutputFormat.write - tag detection, tag slice, indentation test, empty table, frame width, padding
+    dict(name="lg_tag_found", qual="HumanOutputFormat.write", start=r"^if key\.find", end=None, kind="test",
+         inputs=[("pos", "Z")], subst={"key.find('/')": "pos"}),
+    dict(name="lg_tag_end", qual="HumanOutputFormat.write", start=r"^tag = key", end=None, kind="subexpr", pick=r"key\.find\('/'\).*", ret="Z",
+         inputs=[("pos", "Z")], subst={"key.find('/')": "pos"}),
+    dict(name="lg_indent_test", qual="HumanOutputFormat.write", start=r"^if len\(tag\)", end=None, kind="test",
+         inputs=[("tag_len", "Z"), ("tag_in_key", "bool")], subst={"len(tag)": "tag_len", "tag in key": "tag_in_key"}),
+    dict(name="lg_empty_table", qual="HumanOutputFormat.write", start=r"^if len\(key2str\)", end=None, kind="test",
+         inputs=[("n", "Z")], subst={"len(key2str)": "n"}),
+    dict(name="lg_frame_width", qual="HumanOutputFormat.write", start=r"^dashes = ", end=None, kind="subexpr", pick=r"key_width .*", ret="Z",
+         inputs=[("key_width", "Z"), ("val_width", "Z")], subst={}),
+    dict(name="lg_key_pad", qual="HumanOutputFormat.write", start=r"^key_space = ", end=None, kind="subexpr", pick=r"key_width .*", ret="Z",
+         inputs=[("key_width", "Z"), ("key_len", "Z")], subst={"len(key)": "key_len"}),
+    dict(name="lg_val_pad", qual="HumanOutputFormat.write", start=r"^val_space = ", end=None, kind="subexpr", pick=r"val_width .*", ret="Z",
+         inputs=[("val_width", "Z"), ("val_len", "Z")], subst={"len(value)": "val_len"}),
 ]
